@@ -2202,6 +2202,21 @@ impl TransactionBuilder {
                             .amount
                             .checked_add(&change_left)?;
                     }
+                    // every change output above was measured holding only its minimum ADA, and the leftover
+                    // poured into the last one may need a wider coin: what the fee is short by comes out of it
+                    if !matches!(self.fee_request, TxBuilderFee::Exactly(_)) {
+                        let required = self.min_fee()?;
+                        let current = self.fee.clone().unwrap_or(new_fee);
+                        if required > current {
+                            let missing = required.checked_sub(&current)?;
+                            let last = self.outputs.0.last_mut().unwrap();
+                            let coin = last.amount.coin().checked_sub(&missing).map_err(|_| {
+                                JsError::from_str("Not enough ADA leftover to cover the fee of the change output")
+                            })?;
+                            last.amount.set_coin(&coin);
+                            self.set_final_fee(required);
+                        }
+                    }
                     Ok(true)
                 } else {
                     let mut calc = MinOutputAdaCalculator::new_empty(&self.config.utxo_cost())?;
